@@ -1003,7 +1003,7 @@ func runPar(tier string, seed int64, model string, replay string) *corr.Result {
 		} else {
 			for i, a := range pend {
 				if why := checkModel(a, outs[i]); why != "" {
-					res.Disagree(pendCase[i], "trace of the instrumented run ("+a.end+")", why)
+					res.DisagreeFor([]string{pendProp[i]}, pendCase[i], "trace of the instrumented run ("+a.end+")", why)
 				}
 				if len(res.Samples) < 6 && (i == 0 || i == len(pend)/2 || i == len(pend)-1) {
 					res.Samples = append(res.Samples, map[string]string{"case": pendCase[i], "model": outs[i]})
@@ -1015,7 +1015,7 @@ func runPar(tier string, seed int64, model string, replay string) *corr.Result {
 	for i, jb := range jobs {
 		jr := results[i]
 		if jr.err != nil {
-			res.Disagree(jb.request, jr.err.Error(), "")
+			res.DisagreeFor([]string{propOf(jb.sc)}, jb.request, jr.err.Error(), "")
 			continue
 		}
 		if jb.dfs {
@@ -1040,7 +1040,7 @@ func runPar(tier string, seed int64, model string, replay string) *corr.Result {
 			res.Evaluations++
 			res.OracleChecked[prop]++
 			if a.badTrace != "" {
-				res.Disagree(caseText, a.badTrace, "")
+				res.DisagreeFor([]string{prop}, caseText, a.badTrace, "")
 				continue
 			}
 			for _, v := range a.violations {
